@@ -179,10 +179,11 @@ Fixpoint run_evs (id : Z) (s : lstate) (m : mon) (i : Z) (mism : bool) (evs : li
 
 End Run.
 
+(* [legacy]: replay against the model of the code before the repairs F110-F112 *)
 Definition lverdict_with (legacy : bool) (c : Z * lcase) : list (Z * Z * Z * Z) :=
   let '(id, CL ht bl fl tfh genesis conn honest evs) := c in
   let Hf := hlook ht in
-  let cfg := {| c_hard := fun _ => None; c_cp := None; c_genesis := genesis; c_legacy := legacy |} in
+  let cfg := {| c_hard := fun _ => None; c_cp := None; c_genesis := genesis; c_legacy := legacy; c_height_only := legacy |} in
   let a := {| abl := unruns bl; afl := unruns fl |} in
   let tf := unruns tfh in
   let m := {| m_tfh := tf; m_thd := true_headers Hf tf; m_conn := conn; m_ok := true |} in
